@@ -169,6 +169,10 @@ func runSubCase(c subCase) (subObs, error) {
 				}
 			}
 			if len(ref.snapshot()) >= puts {
+				// the reference subscriber has been told; the other subscribers are called after it within the SAME Publish, which holds
+				// the subscriber table's read lock until all callbacks returned: (un)subscribing takes the write lock, i.e. waits for it
+				fence := n.M.SubscribeToEvents(func(datatransfer.Event, datatransfer.ChannelState) {})
+				fence()
 				return
 			}
 			time.Sleep(200 * time.Microsecond)
